@@ -94,6 +94,12 @@ def exit_chain(I, ret, fn_pred=None):
 
     chain = [(it[1], it[2], it[3]) for it in I.trace.items if it[0] == "guard" and (fn_pred is None or fn_pred(it[4]))]
     is_err = lambda v: isinstance(v, Enum) and v.variant == "Err"
+    from .alg import Opaque as _Op
+
+    if isinstance(ret, _Op) and ret.what == "result" and "ok" in ret.info:
+        # fallible dependency call passed through (map / map_err spellings): failure exit + success value
+        chain.append((Cond("is_ok", text=repr(ret)).negate(), Enum("Result", "Err", [ret.info.get("err", _Op("error-value"))]), "tail"))
+        ret = Enum("Result", "Ok", [ret.info["ok"]])
     while isinstance(ret, Ite) and isinstance(ret.cond, Cond):
         if is_err(ret.b) and not is_err(ret.a):
             chain.append((ret.cond.negate(), ret.b, "tail"))
